@@ -117,9 +117,11 @@ func (pq *pqList) Expire(now time.Time) []interface{} {
 		}
 		expired := heap.Pop(&pq.pq).(*bucket)
 		delete(pq.buckets, expired.deadline)
+		expired.mtx.Lock()
 		for _, v := range expired.data {
 			out = append(out, v.value)
 		}
+		expired.mtx.Unlock()
 	}
 }
 
